@@ -37,6 +37,13 @@ def cells(tier):
             out.append(Cell(pid=PID, cid='C19/%s/first-%s/n%d' % (cmd, FILE_KINDS[k0], n), harness='h_collect:cli_list_cell',
                             params={'cmd': cmd, 'n': n}, sym=sym, pre=pre, stubs=('hash',), timeout=T, cost=K ** (n - 1),
                             example=ex))
+    # two invocations in one process on a path whose content changed in between
+    for cmd in ('detect', 'inspect'):
+        for k0 in (0, 2, 3, 9, 10):
+            sym = [('k0', 'int'), ('k1', 'int')]
+            pre = ['k0 == %d' % k0, '0 <= k1 < %d' % K, 'k1 != k0', 'k1 != 11']
+            out.append(Cell(pid=PID, cid='C19/%s-twice/first-%s' % (cmd, FILE_KINDS[k0]), harness='h_collect:cli_twice_cell',
+                            params={'cmd': cmd}, sym=sym, pre=pre, stubs=('hash',), timeout=T, cost=K))
     for scen in SCENARIOS:
         for outmode in ('stdout', 'file'):
             out.append(Cell(pid=PID, cid='C19/merge/%s/%s' % (scen, outmode), harness='h_collect:cli_merge_cell',
